@@ -713,7 +713,7 @@ impl World for LedgerCheck {
             "C05" => "Every scan_every commits and at run end: the repository's KernelDatabaseChecker and SystemDatabaseChecker (with role-assignment, royalty and resource application checkers) over the whole store, plus an own ownership pass (every stored internal node owned exactly once, no global node owned, stored values reference only global nodes). evaluations = engine executions; distinct = distinct (state-updates digest, outcome class).",
             "C06" => "Most fees are locked on a dedicated payer account (it does nothing else, so its vault change is exactly the payment), with 1-2 locks mixing contingent and non-contingent, amounts below/around/above the need, tips over the whole Percentage(u16) and BasisPoints(u32) ranges, and in half the runs overridden costing parameters (unit prices with 18 significant decimals, USD and storage prices). For every commit: paid == execution+finalization+tip+storage+royalties == proposer+validator set+burn+royalties, cost == units x price, tip within truncation bounds, proposer/validator shares (tips 100% proposer; network fees 25/25/50) within 2 attos, rewards vault delta, burn event, dedicated payer vault delta == reported payment (refund in full), contingent-only vault untouched on failure, cost units within limits. Fee probes: total cost T learned with a generous lock, then locks of exactly T and T -/+ {1, 1e3, 1e9} attos are executed (no commit): each must be a consistent commit or a reject; a panic of the executor's fee sanity assertions is the violation. Oracle arithmetic in BigInt attos. evaluations = engine executions; distinct = distinct (state-updates digest, outcome class).",
             "C51" => "Model-free history invariant: for every commit each updated substate is compared with its pre-state; a substate whose stored lock status is Locked (object fields, key-value entries incl. metadata entries and non-fungible tombstones) or an owner role whose updater is None must be rewritten byte-identically or not at all. The workload locks metadata keys and owner roles (resources are created with Fixed or Updatable owner roles) and then every party - the owner included - keeps issuing set / lock / set-owner / mint / burn calls against them, with injected faults. evaluations = engine executions; distinct = distinct (state-updates digest, outcome class).",
-            "C49" => "The workload additionally sets metadata entries with keys of 1..2000 and values of 0..100000 characters and issues up to 90 transfers per manifest. For sampled user transactions (F6, one limit at a time) two or three of the limits max_call_depth, max_heap_substate_total_bytes, max_track_substate_total_bytes, max_substate_key_size, max_substate_value_size, max_invoke_input_size, max_event_size, max_number_of_events are probed: the smallest value under which the transaction executes exactly as under the protocol limits is located by bisection; one below it the transaction must fail (with that limit's TransactionLimitsError unless the interrupted code maps it), at it and at 3 sampled larger values the result must be identical, 3 sampled smaller values must fail (monotone threshold); the event-count and event-size thresholds must equal what the receipt shows (execution-phase events), no committed substate value may be larger than the value-size threshold; a successful but different result under a lowered limit is a violation. Nothing probed is committed. evaluations = engine executions; distinct = distinct (limit kind, threshold) pairs + (state-updates digest, outcome class).",
+            "C49" => "The workload additionally sets metadata entries with keys of 1..2000 and values of 0..100000 characters and issues up to 90 transfers per manifest. For sampled user transactions (F6, one limit at a time) two or three of the limits max_call_depth, max_heap_substate_total_bytes, max_track_substate_total_bytes, max_substate_key_size, max_substate_value_size, max_invoke_input_size, max_event_size, max_number_of_events are probed: the smallest value under which the transaction executes exactly as under the protocol limits is located by bisection; one below it the transaction must fail (with that limit's TransactionLimitsError unless the interrupted code maps it), at it and at 3 sampled larger values the result must be identical, 3 sampled smaller values must fail (monotone threshold); the event-count and event-size thresholds must equal what the receipt shows (execution-phase events), no committed substate value may be larger than the value-size threshold; whenever the limit error reports the offending size it must exceed the limit in force; a successful but different result under a lowered limit is a violation. Nothing probed is committed. evaluations = engine executions; distinct = distinct (limit kind, threshold) pairs + (state-updates digest, outcome class).",
             "C11" => "Every execution runs under catch_unwind with a recording panic hook; a panic or a NativeRuntimeError::Trap is the violation. evaluations = engine executions; distinct = distinct (state-updates digest, outcome class).",
             _ => "",
         };
